@@ -903,6 +903,18 @@ impl<'a> LiveEvents<'a> {
             }
             let (raw, span) = match item {
                 Ok(x) => x,
+                Err(scan_error)
+                    if scan_error
+                        .info()
+                        .to_ascii_lowercase()
+                        .contains("unknown anchor") =>
+                {
+                    // An alias to an anchor that is defined nowhere, in the document being
+                    // skipped: it fails that document only, exactly as it does when it is met
+                    // while the document is deserialized (the parser has consumed the alias and
+                    // goes on with the next token).
+                    continue;
+                }
                 Err(scan_error) => {
                     // Syntax error while skipping: the stream cannot be read any further. Inside
                     // the failed document that is the end of it (its failure has been reported).
